@@ -210,6 +210,59 @@ def body_subscribe(S, t, part):
     S.note("template", src)
 
 
+PLAYER_FORMS = ["players[%d].score", 'players[%d]["score"]', "players[%d].score + 1", '(players[%d]["score"], 5)[0]', 'players[%d]["score"] > 10', "players[%d].score if players[%d].score else 7"]
+
+
+def setup_players(part):
+    t = stubs.boot("player_state")
+    t.machine.playfield.add_ball = lambda **kwargs: None
+    t.machine.ball_controller.num_balls_known = 3
+    return t
+
+
+def body_players(S, t, part):
+    """attribute and index access on player values: players[k] of a player who is in the game gives that player's value, of a player who
+    is not in the game the template's default - never somebody else's value"""
+    m = t.machine
+    pm = m.placeholder_manager
+    n = part["players"]
+    if m.game is not None:
+        m.game.end_game()
+        t.advance_time_and_run(2)
+    for i in range(n):
+        m.switch_controller.process_switch("s_start", 1, logical=True)
+        m.switch_controller.process_switch("s_start", 0, logical=True)
+        t.advance_time_and_run(0.1)
+    t.advance_time_and_run(0.5)
+    g = m.game
+    if g is None or g.num_players != n:
+        raise Violation("harness", "start", "game/players not as requested")
+    scores = []
+    for i in range(n):
+        sc = S.int("score%d" % i, -20, 40)
+        g.player_list[i].score = sc
+        scores.append(sc)
+    t.advance_time_and_run(0.01)
+    form = PLAYER_FORMS[S.choice("form", len(PLAYER_FORMS))]
+    k = S.choice("player_index", 4)
+    src = form.replace("%d", str(k))
+    tpl = pm.build_raw_template(src, -1000)
+    got = tpl.evaluate({})
+    if k < n:
+        sk = scores[k]
+        want = {0: sk, 1: sk, 2: sk + 1, 3: sk, 4: sk > 10, 5: sk if sk else 7}[PLAYER_FORMS.index(form)]
+    else:
+        want = -1000
+    if got != want or type(got) is not type(want):
+        raise Violation("evaluates-like-python" if k < n else "missing-variable-gives-default", "PlayerPlaceholder.__getitem__" if '["' in src else "PlayerPlaceholder.__getattr__",
+                        "%s with %d player(s) (scores %s) = %r, expected %r" % (src, n, scores, got, want))
+    cur = pm.build_raw_template('current_player["score"] + current_player.score', -1000).evaluate({})
+    if cur != 2 * scores[g.player.index]:
+        raise Violation("evaluates-like-python", "PlayerPlaceholder.__getitem__", "current_player score twice = %r, score %r" % (cur, scores[g.player.index]))
+    S.note("nontrivial", True)
+    S.note("in_game", bool(k < n))
+
+
 def scenarios(tier):
     progs = _programs(tier)
     kind_sets = [("int", "int", "int"), ("real", "int", "bool"), ("int", "str", "int"), ("bool", "none", "int"), ("str", "str", "int")]
@@ -219,4 +272,5 @@ def scenarios(tier):
     sparts = [dict(template=i, changes=1 if tier == "quick" else 2) for i in range(len(TEMPLATES))]
     pb = 40 if tier == "quick" else 120
     return [Scenario("expr", setup, body_expr, eparts, teardown=teardown, part_budget=pb, per_path_timeout=20),
+            Scenario("players", setup_players, body_players, [dict(players=n) for n in (1, 2, 3)], teardown=teardown, part_budget=pb, per_path_timeout=30),
             Scenario("subscribe", setup, body_subscribe, sparts, teardown=teardown, part_budget=60 if tier == "quick" else 240, per_path_timeout=30)]
